@@ -664,9 +664,11 @@ def predict(case, B, index_of):
         e.warn_pos[text_of['type']] = False
     if 'not nullable' in byname and ('nullable' in byname or 'allow-none' in byname):
         pass
-    e.nontrivial = any(x == 'M' for x in e.warn.values()) or any(
-        (x is not U and x[0] in ('M', 'C') and (x[0] == 'C' or x[1] != ba.get(k))) for k, x in e.attrs.items()
-        if not (isinstance(x, tuple) and x[0] == 'DEFAULT-OUT')) or e.type is not U
+    base_pat = pat_of_tree(bt)
+    e.nontrivial = (any(x == 'M' for x in e.warn.values()) or bool(e.others) or e.fatal == 'M' or
+                    (e.type is not U and e.type != base_pat) or
+                    (e.attributes is not U and e.attributes[1] != list(B['attributes'])) or
+                    any(x is not U and (x[0] != 'M' or x[1] != ba.get(k)) for k, x in e.attrs.items()))
     return e
 
 
